@@ -49,6 +49,8 @@ def main():
     ap.add_argument("--props", default=None)
     ap.add_argument("--only", default=None)
     ap.add_argument("--json", default=None)
+    ap.add_argument("--write-expect", action="store_true", help="record which checks report which change in /verif/selftest_expect.json (controls of the thorough tier)")
+    ap.add_argument("--glob", default=None, help="evaluate patches matching this glob instead of the committed corpora (label = two last path components)")
     a = ap.parse_args()
     props = a.props.split(",") if a.props else claimed()
     from xyzsa.cli import run_property
@@ -59,9 +61,13 @@ def main():
             print("\n".join(l for l in lines if "VIOLATION" in l or "ANALYSIS" in l or l.startswith("  xyzpy"))[:1500])
             sys.exit(3)
     jobs = []
-    for d in sorted(glob.glob("/verif/seeded/*/patch.diff")):
+    if a.glob:
+        for d in sorted(glob.glob(a.glob)):
+            parts = d.split(os.sep)
+            jobs.append((parts[-3].replace(".out", "") + "-" + parts[-2], d, props))
+    for d in ([] if a.glob else sorted(glob.glob("/verif/seeded/*/patch.diff"))):
         jobs.append((os.path.basename(os.path.dirname(d)), d, props))
-    for d in sorted(glob.glob("/verif/regress/R*.diff")):
+    for d in ([] if a.glob else sorted(glob.glob("/verif/regress/R*.diff"))):
         jobs.append((os.path.basename(d)[:-5], d, props))
     if a.only:
         jobs = [j for j in jobs if a.only in j[0]]
@@ -83,5 +89,9 @@ def main():
     print("caught %d of %d" % (caught, len(res)))
     if a.json:
         json.dump(res, open(a.json, "w"), indent=1)
+    if a.write_expect:
+        exp = {"mutants": {label: sorted(p for p, (c, m) in out.items() if c == 1) for label, out in sorted(res.items()) if "_apply" not in out}}
+        json.dump(exp, open("/verif/selftest_expect.json", "w"), indent=1)
+        print("selftest_expect.json written (%d controls)" % len(exp["mutants"]))
 
 main()
